@@ -112,7 +112,7 @@ def cfg_text(spec="Spec", constants=None, constraints=(), view=None, invariants=
 CASE_PREFIX = '<<"CASE", "'
 
 
-def run_tlc(workdir, name, module, cfg, workers=1, simulate=None, seed=None, timeout=1800, env_extra=None, xmx="4g",
+def run_tlc(workdir, name, module, cfg, workers=1, simulate=None, seed=None, timeout=1800, env_extra=None, xmx="4g", jvm_extra=(),
             coverage=False, stack="64m", depth=None):
     """Run TLC on spec/<module>.tla with the given cfg text.  Emitted CASE lines are written to
     <workdir>/<name>.cases.ndjson.  Raises ToolError for anything but success or an invariant
@@ -123,7 +123,7 @@ def run_tlc(workdir, name, module, cfg, workers=1, simulate=None, seed=None, tim
         f.write(cfg)
     outp = os.path.join(workdir, name + ".tlc.out")
     meta = os.path.join(workdir, name + ".states")
-    cmd = ["java", "-XX:+UseParallelGC", "-Xss" + stack, "-Xmx" + xmx, "-cp", TLA_CP, "tlc2.TLC", "-workers", str(workers),
+    cmd = ["java", "-XX:+UseParallelGC", "-Xss" + stack, "-Xmx" + xmx] + list(jvm_extra) + ["-cp", TLA_CP, "tlc2.TLC", "-workers", str(workers),
            "-metadir", meta, "-cleanup", "-noGenerateSpecTE", "-config", cfgp]
     if coverage:
         cmd += ["-coverage", "1"]
@@ -184,6 +184,12 @@ def run_tlc(workdir, name, module, cfg, workers=1, simulate=None, seed=None, tim
     if rc in (12, 13) or "is violated" in text or "The first argument of Assert evaluated to FALSE" in text:
         res.violation = text[-6000:]
         return res
+    if "when writing the disk (StatePoolWriter.run)" in text and not jvm_extra and simulate is None:
+        # a defect of TLC's disk-backed state queue (a lazily evaluated function value is written before it was converted):
+        # it shows only when the queue outgrows its in-memory pool.  Retry once with the in-memory queue implementation.
+        log("[tlc] %s: TLC's disk state queue failed internally; retrying with the in-memory queue" % name)
+        return run_tlc(workdir, name, module, cfg, workers=workers, simulate=simulate, seed=seed, timeout=timeout, env_extra=env_extra,
+                       xmx=xmx, jvm_extra=("-Dtlc2.tool.queue.IStateQueue=StateDeque",), coverage=coverage, stack=stack, depth=depth)
     raise ToolError("TLC failed (rc=%s) for %s: see %s\n%s" % (rc, name, outp, text[-3000:]))
 
 
